@@ -172,8 +172,8 @@ OutKeys(prog, j, acc) ==
            \* SKIP is a placeholder for an ignored output, not a key of the record
            mine == UNION {IF o.outs[m].t = "map" THEN {K(o.outs[m].names[n]) : n \in 1..Len(o.outs[m].names)} ELSE {o.outs[m].p}
                           : m \in 1..Len(o.outs)} \ {SKIP} IN
-       CASE o.op = "apply"  -> OutKeys(prog, j + 1, mine)
-         [] o.op \in {"assign", "select"} -> OutKeys(prog, j + 1, acc \cup mine)
+       CASE o.op \in {"apply", "select"} -> OutKeys(prog, j + 1, mine)       \* the record is replaced
+         [] o.op = "assign" -> OutKeys(prog, j + 1, acc \cup mine)
          [] o.op = "sink"   -> OutKeys(prog, j + 1, acc \cup {SELF})
          [] OTHER           -> OutKeys(prog, j + 1, acc)
 
@@ -279,7 +279,12 @@ ComposeLaw ==
      \A s \in 1..NS : LET pre == Eval(SubSeq(prog, 1, Len(prog) - 1), Streams[s]) IN
         ~pre.err => (E(s).out = Eval(<<prog[Len(prog)]>>, pre.out).out)
 
+\* batch() over output keys that mix SELF with named keys has no defined meaning (the result depends on the order in
+\* which a set of keys is visited); such programs are outside the universe
+Undefined(p) == Len(p) > 0 /\ p[Len(p)].op = "batch"
+                /\ LET ks == OutKeys(p, 1, {}) IN SELF \in ks /\ Cardinality(ks) > 1
+
 Emit == prog # <<>> =>
-  PrintT(<<"H", ToJson([prog |-> prog, build_error |-> BuildError(prog),
+  PrintT(<<"H", ToJson([prog |-> prog, build_error |-> BuildError(prog), undefined |-> Undefined(prog),
                          runs |-> [s \in 1..NS |-> E(s)]])>>)
 =============================================================================
